@@ -25,7 +25,7 @@ func hStaticFeed() []vr.File {
 	return []vr.File{
 		{Name: "agency.txt", Header: []string{"agency_id", "agency_name", "agency_url", "agency_timezone"}, Rows: [][]string{{"ag", "A", "u", "UTC"}}},
 		{Name: "routes.txt", Header: []string{"route_id", "agency_id", "route_type"}, Rows: [][]string{{"r1", "ag", "1"}}},
-		{Name: "stops.txt", Header: []string{"stop_id", "stop_name", "parent_station"}, Rows: [][]string{{"s1", "a", "s3"}, {"s2", "b", "s3"}, {"s3", "c", ""}}},
+		{Name: "stops.txt", Header: []string{"stop_id", "stop_name", "parent_station"}, Rows: [][]string{{"s1", "a", "s3"}, {"s2", "b", "s3"}, {"s3", "c", ""}, {"c1", "x", "c2"}, {"c2", "y", "c1"}}},
 		{Name: "calendar.txt", Header: []string{"service_id", "monday", "tuesday", "wednesday", "thursday", "friday", "saturday", "sunday", "start_date", "end_date"},
 			Rows: [][]string{{a, "1", "1", "1", "1", "1", "0", "0", "20240101", "20241231"}, {b, "0", "0", "0", "0", "0", "1", "1", "20240101", "20241231"}}},
 		{Name: "calendar_dates.txt", Header: []string{"service_id", "date", "exception_type"}, Rows: [][]string{{c, "20240704", "1"}, {a, "20240705", "2"}}},
